@@ -1,7 +1,7 @@
 import KrakenModel.Model.HttpSend
 /-
-  Helper lemmas for Spec/C34: the invariant of the repaired retry loop (every iteration starts
-  with the complete body) and the shape of its run.
+  Helper lemmas for Spec/C34: the invariant of the repaired retry loop (every attempt, the http
+  fallback attempt included, starts with the complete body) and the shape of its runs.
 -/
 namespace KrakenModel.Proof.C34
 open KrakenModel.HttpSend
@@ -12,42 +12,142 @@ theorem getD_tail {α : Type} (l : List α) (i : Nat) (d : α) : l.tail.getD i d
 theorem headD_eq_getD {α : Type} (l : List α) (d : α) : l.headD d = l.getD 0 d := by
   cases l <;> simp
 
-/-- with the complete body in the reader the transport sends the original request -/
-theorem transmit_initial (cfg : Cfg) : transmit cfg (initialBody cfg) = .sent (original cfg) := by
-  unfold transmit initialBody original
-  cases h : cfg.kind <;> simp
+/-- the original request sent over https (`true`) or http -/
+def origAs (cfg : Cfg) (tls : Bool) : Req := { original cfg with tls := tls }
 
-/-- the repaired loop only ever continues with the complete body -/
+theorem origAs_self (cfg : Cfg) : origAs cfg cfg.req.tls = original cfg := by
+  unfold origAs original
+  cases cfg.kind <;> simp
+
+/-- with the complete body in the reader the transport sends the original request -/
+theorem transmit_initial (cfg : Cfg) (tls : Bool) : transmit cfg tls (initialBody cfg) = .sent (origAs cfg tls) := by
+  unfold transmit initialBody original origAs
+  cases h : cfg.kind <;> simp [original, h]
+
+/-- the repaired code only ever continues with the complete body -/
 theorem nextBody_rewinds (cfg : Cfg) (h : cfg.rewinds = true) (r : List Byte)
     (hn : nextBody cfg = some r) : r = initialBody cfg := by
   unfold nextBody at hn
   unfold initialBody original
   rw [h] at hn
-  cases hk : cfg.kind <;> simp [hk] at hn ⊢ <;> first | exact hn.symm | exact hn
+  cases hk : cfg.kind <;> simp [hk] at hn ⊢
+  · first | exact hn.symm | exact hn
+  · first | exact hn.symm | exact hn
+  · first | exact hn.2.symm | exact hn.2
 
-theorem nextBody_none (cfg : Cfg) (h : cfg.rewinds = true) : nextBody cfg = none ↔ cfg.kind = .plain := by
+theorem nextBody_none (cfg : Cfg) (h : cfg.rewinds = true) :
+    nextBody cfg = none ↔ (cfg.kind = .plain ∧ cfg.plainReplays = false) := by
   unfold nextBody
   rw [h]
   cases hk : cfg.kind <;> simp
 
-/-- Shape of a run of the repaired loop started with the complete body: it appends `m ≥ 1`
+/-- a wire entry is the original request, over https or over http -/
+def Orig (cfg : Cfg) (w : Wire) : Prop := w = .sent (original cfg) ∨ w = .sent (origAs cfg false)
+
+/-- one iteration started with the complete body: one or two attempts, each the original request -/
+theorem attempt_spec (cfg : Cfg) (h : cfg.rewinds = true) (script : List Outcome) (acc : List Wire) :
+    ∃ ws, (attempt cfg script (initialBody cfg) acc).2.2 = acc ++ ws ∧ 1 ≤ ws.length ∧ ws.length ≤ 2 ∧
+      ∀ w ∈ ws, Orig cfg w := by
+  unfold attempt
+  simp only [transmit_initial, outcomeOf, origAs_self]
+  by_cases hfb : ((script.headD .net).isErr && cfg.req.tls && cfg.fallback) = true
+  · simp only [hfb, if_true]
+    cases hnb : nextBody cfg with
+    | none => exact ⟨[.sent (original cfg)], by simp, by simp, by simp, by intro w hw; simp at hw; exact Or.inl hw⟩
+    | some rem =>
+      have := nextBody_rewinds cfg h rem hnb
+      subst this
+      simp only [h, if_true, transmit_initial]
+      refine ⟨[.sent (original cfg), .sent (origAs cfg false)], by simp, by simp, by simp, ?_⟩
+      intro w hw
+      simp at hw
+      rcases hw with hw | hw
+      · exact Or.inl hw
+      · exact Or.inr hw
+  · simp only [hfb]
+    exact ⟨[.sent (original cfg)], by simp, by simp, by simp, by intro w hw; simp at hw; exact Or.inl hw⟩
+
+/-- without the fallback an iteration is exactly one attempt answered by the head of the script -/
+theorem attempt_nofallback (cfg : Cfg) (hnf : (cfg.req.tls && cfg.fallback) = false)
+    (script : List Outcome) (acc : List Wire) :
+    attempt cfg script (initialBody cfg) acc = (script.getD 0 .net, script.tail, acc ++ [.sent (original cfg)]) := by
+  unfold attempt
+  have : ∀ o : Outcome, (o.isErr && cfg.req.tls && cfg.fallback) = false := by
+    intro o; rw [Bool.and_assoc, hnf]; simp
+  simp only [transmit_initial, outcomeOf, origAs_self, this, headD_eq_getD]
+  simp
+
+/-- every run of the repaired loop: every attempt is the original request (over https or http), there
+are between 1 and 2·(b+1) of them beyond `acc`, and the result is that of some server outcome -/
+theorem sendLoop_general (cfg : Cfg) (h : cfg.rewinds = true) :
+    ∀ (b : Nat) (script : List Outcome) (acc : List Wire), (∀ w ∈ acc, Orig cfg w) →
+      (∀ w ∈ (sendLoop cfg b script (initialBody cfg) acc).1, Orig cfg w) ∧
+      acc.length + 1 ≤ (sendLoop cfg b script (initialBody cfg) acc).1.length ∧
+      (sendLoop cfg b script (initialBody cfg) acc).1.length ≤ acc.length + 2 * (b + 1) ∧
+      ∃ o, (sendLoop cfg b script (initialBody cfg) acc).2 = final cfg o := by
+  intro b
+  induction b with
+  | zero =>
+    intro script acc hacc
+    obtain ⟨ws, hws, h1, h2, hall⟩ := attempt_spec cfg h script acc
+    unfold sendLoop
+    generalize hat : attempt cfg script (initialBody cfg) acc = res at hws
+    obtain ⟨o, script', acc'⟩ := res
+    simp only at hws
+    subst hws
+    have hmem : ∀ w ∈ acc ++ ws, Orig cfg w := by
+      intro w hw; rcases List.mem_append.mp hw with hw | hw
+      · exact hacc w hw
+      · exact hall w hw
+    simp only
+    split
+    · cases nextBody cfg <;> exact ⟨hmem, by simp; omega, by simp; omega, o, rfl⟩
+    · exact ⟨hmem, by simp; omega, by simp; omega, o, rfl⟩
+  | succ b ih =>
+    intro script acc hacc
+    obtain ⟨ws, hws, h1, h2, hall⟩ := attempt_spec cfg h script acc
+    unfold sendLoop
+    generalize hat : attempt cfg script (initialBody cfg) acc = res at hws
+    obtain ⟨o, script', acc'⟩ := res
+    simp only at hws
+    subst hws
+    have hmem : ∀ w ∈ acc ++ ws, Orig cfg w := by
+      intro w hw; rcases List.mem_append.mp hw with hw | hw
+      · exact hacc w hw
+      · exact hall w hw
+    simp only
+    split
+    · cases hnb : nextBody cfg with
+      | none => exact ⟨hmem, by simp; omega, by simp; omega, o, rfl⟩
+      | some rem =>
+        have := nextBody_rewinds cfg h rem hnb
+        subst this
+        simp only
+        obtain ⟨i1, i2, i3, i4⟩ := ih script' (acc ++ ws) hmem
+        refine ⟨i1, ?_, ?_, i4⟩
+        · simp at i2 ⊢; omega
+        · simp at i3 ⊢; omega
+    · exact ⟨hmem, by simp; omega, by simp; omega, o, rfl⟩
+
+/-- Shape of a run without the fallback, started with the complete body: it appends `m ≥ 1`
 copies of the original request, `m ≤ b + 1`; every outcome before the last asked for a retry;
 the result is that of the last outcome; and the loop stopped because the last outcome asks for
 no retry, or the backoff is exhausted, or the body cannot be replayed. -/
-theorem sendLoop_shape (cfg : Cfg) (h : cfg.rewinds = true) :
+theorem sendLoop_shape (cfg : Cfg) (h : cfg.rewinds = true) (hnf : (cfg.req.tls && cfg.fallback) = false) :
     ∀ (b : Nat) (script : List Outcome) (acc : List Wire),
       ∃ m, 1 ≤ m ∧ m ≤ b + 1 ∧
         (sendLoop cfg b script (initialBody cfg) acc).1 = acc ++ List.replicate m (.sent (original cfg)) ∧
         (sendLoop cfg b script (initialBody cfg) acc).2 = final cfg (script.getD (m - 1) .net) ∧
         (∀ i, i + 1 < m → wantsRetry cfg (script.getD i .net) = true) ∧
-        (wantsRetry cfg (script.getD (m - 1) .net) = false ∨ m = b + 1 ∨ cfg.kind = .plain) := by
+        (wantsRetry cfg (script.getD (m - 1) .net) = false ∨ m = b + 1 ∨
+          (cfg.kind = .plain ∧ cfg.plainReplays = false)) := by
   intro b
   induction b with
   | zero =>
     intro script acc
     refine ⟨1, by omega, by omega, ?_⟩
     unfold sendLoop
-    simp only [transmit_initial, headD_eq_getD]
+    simp only [attempt_nofallback cfg hnf]
     by_cases hw : wantsRetry cfg (script.getD 0 .net) = true
     · simp only [hw, if_true]
       cases hnb : nextBody cfg with
@@ -59,7 +159,7 @@ theorem sendLoop_shape (cfg : Cfg) (h : cfg.rewinds = true) :
   | succ b ih =>
     intro script acc
     unfold sendLoop
-    simp only [transmit_initial, headD_eq_getD]
+    simp only [attempt_nofallback cfg hnf]
     by_cases hw : wantsRetry cfg (script.getD 0 .net) = true
     · simp only [hw, if_true]
       cases hnb : nextBody cfg with
